@@ -21,6 +21,12 @@ impl MutexGuard<HashMap<Hash, htlc_manager::PaymentState>> {
             && r->0.amount_received_msat as int == self.snap@.received
             && r->0.cltv_expiry as int == self.snap@.min_expiry),
     { unimplemented!() }
+    // access without removal: the entry stays in the table (the world is not changed)
+    #[verifier::external_body]
+    fn get_mut<'a>(&'a mut self, k: &Hash) -> (r: Option<&'a mut htlc_manager::PaymentState>)
+        ensures (!old(self).snap@.released && *k == old(self).snap@.hash) ==> r is Some,
+            final(self).snap@ == old(self).snap@,
+    { unimplemented!() }
     #[verifier::external_body]
     fn remove(&mut self, k: &Hash, Tracked(w): Tracked<&mut World>) -> (r: Option<htlc_manager::PaymentState>)
         requires *k == old(w).hash, old(w).lock_held,
